@@ -61,3 +61,75 @@ package trust
 //@   ensures uint64(id.Base) != old(stBase) ==> insCount == c0
 //@   ensures uint64(id.Serial) <= s0 ==> insCount == c0
 //@   ensures result == nil && uint64(id.Base) == old(stBase) && uint64(id.Serial) > s0 ==> stSerial == uint64(id.Serial) || insCount == c0
+
+//@ import x509 "crypto/x509"
+
+//@ # ---- C36 / C34: signers are backed by a chain that verifies against an active TRC, and expire with it.
+//@ func minTime
+//@   props C36
+//@   modifies nothing
+//@   ensures result.ext == min(a.ext, b.ext)
+//@   ensures result == a || result == b
+
+//@ # chains handed out by the DB are non-empty and start with a certificate
+//@ macro chainsOK(cs) = (forall q int :: 0 <= q && q < len(cs) ==> cs[q] != nil && len(cs[q]) >= 1 && cs[q][0] != nil)
+//@ iface DB.Chains
+//@   modifies nothing
+//@   ensures result1 == nil ==> chainsOK(result0)
+
+//@ # bestChain: among the chains that verify against the TRC, one with the latest expiry; nil iff none verifies
+//@ func bestChain
+//@   props C36
+//@   requires trc != nil && chainsOK(chains)
+//@   modifies nothing
+//@   loop 1 invariant 0 <= (rangeindex+1) && (rangeindex+1) <= len(chains)
+//@   loop 1 invariant (best == nil) == (len(best) == 0)
+//@   loop 1 invariant len(best) == 0 ==> forall j int :: 0 <= j && j < (rangeindex+1) ==> !cppki.chainOK(chains[j], trc)
+//@   loop 1 invariant len(best) > 0 ==> best[0] != nil && cppki.chainOK(best, trc) && (exists k int :: 0 <= k && k < (rangeindex+1) && best == chains[k])
+//@   loop 1 invariant len(best) > 0 ==> forall j int :: 0 <= j && j < (rangeindex+1) && cppki.chainOK(chains[j], trc) ==> chains[j][0].NotAfter.ext <= best[0].NotAfter.ext
+//@   ensures (result == nil) == (len(result) == 0)
+//@   ensures len(result) == 0 ==> forall j int :: 0 <= j && j < len(chains) ==> !cppki.chainOK(chains[j], trc)
+//@   ensures len(result) > 0 ==> result[0] != nil && cppki.chainOK(result, trc) && (exists k int :: 0 <= k && k < len(chains) && result == chains[k])
+//@   ensures len(result) > 0 ==> forall j int :: 0 <= j && j < len(chains) && cppki.chainOK(chains[j], trc) ==> chains[j][0].NotAfter.ext <= result[0].NotAfter.ext
+
+//@ func verifyExtendedKeyUsage
+//@   trusted
+//@   modifies nothing
+//@ func filterChains
+//@   props C36
+//@   requires chainsOK(chains)
+//@   modifies nothing
+//@   loop 1 invariant 0 <= (rangeindex+1) && (rangeindex+1) <= len(chains) && chainsOK(filtered)
+//@   ensures chainsOK(result)
+
+//@ extern github.com/scionproto/scion/pkg/scrypto/cppki.SubjectKeyID
+//@   modifies nothing
+//@ extern github.com/scionproto/scion/pkg/scrypto/signed.SelectSignatureAlgorithm
+//@   modifies nothing
+//@ iface crypto.Signer.Public
+//@   modifies nothing
+//@ import crypto "crypto"
+
+//@ # the signer for a key: the chain verifies against the active TRC - or, only if none does and a grace period is
+//@ # running (two active TRCs), against the predecessor; it expires no later than its certificate and the TRC that
+//@ # anchors it (for a grace signer: also no later than the end of the grace period)
+//@ func (*SignerGen).bestForKey
+//@   props C36
+//@   requires s != nil && s.DB != nil && key != nil && (len(trcs) == 1 || len(trcs) == 2)
+//@   ensures result0 != nil ==> len(result0.Chain) >= 1 && result0.Chain[0] != nil && result0.IA == s.IA && result0.TRCID == trcs[0].TRC.ID
+//@   ensures result0 != nil && !result0.InGrace ==> cppki.chainOK(result0.Chain, &trcs[0].TRC)
+//@   ensures result0 != nil && !result0.InGrace ==> result0.Expiration.ext == min(result0.Chain[0].NotAfter.ext, trcs[0].TRC.Validity.NotAfter.ext)
+//@   ensures result0 != nil && result0.InGrace ==> len(trcs) == 2 && cppki.chainOK(result0.Chain, &trcs[1].TRC)
+//@   ensures result0 != nil && result0.InGrace ==> result0.Expiration.ext <= result0.Chain[0].NotAfter.ext && result0.Expiration.ext <= trcs[1].TRC.Validity.NotAfter.ext
+//@   ensures result0 != nil && result0.InGrace && trcs[0].TRC.ID.Base != trcs[0].TRC.ID.Serial ==> result0.Expiration.ext <= trcs[0].TRC.Validity.NotBefore.ext + int64(trcs[0].TRC.GracePeriod)
+//@   ensures result0 != nil ==> result0.ChainValidity.NotAfter.ext == result0.Chain[0].NotAfter.ext
+
+//@ # ---- C34: the active TRCs: the latest one, valid now; plus its predecessor exactly while the grace period runs
+//@ func activeTRCs
+//@   props C34 C36
+//@   requires db != nil
+//@   modifies time.lastNow
+//@   ensures result2 == nil ==> (len(result0) == 1 || len(result0) == 2) && result0[0].TRC.ID.ISD == isd
+//@   ensures result2 == nil ==> result0[0].TRC.Validity.NotBefore.ext <= time.lastNow && old(time.lastNow) <= result0[0].TRC.Validity.NotAfter.ext
+//@   ensures result2 == nil && len(result0) == 2 ==> result0[0].TRC.ID.Base != result0[0].TRC.ID.Serial && !cppki.zeroSigned(result0[1])
+//@   ensures result2 == nil && len(result0) == 2 ==> old(time.lastNow) <= result0[0].TRC.Validity.NotBefore.ext + int64(result0[0].TRC.GracePeriod)
